@@ -19,7 +19,7 @@ impl Errno {
 }
 
 #[derive(PartialEq, Eq, Clone, Copy, Structural)]
-pub enum ErrorKind { NotFound, PermissionDenied, Interrupted, Other }
+pub enum ErrorKind { NotFound, PermissionDenied, AlreadyExists, InvalidInput, Interrupted, Unsupported, WouldBlock, Other }
 
 pub mod io {
     use super::*;
@@ -95,6 +95,10 @@ impl Permissions {
     pub uninterp spec fn spec_mode(&self) -> u32;
     #[verifier::external_body]
     pub fn mode(&self) -> (r: u32) ensures r == self.spec_mode() { unimplemented!() }
+    #[verifier::external_body]
+    pub fn from_mode(m: u32) -> (r: Permissions) ensures r.spec_mode() == m { unimplemented!() }
+    #[verifier::external_body]
+    pub fn set_mode(&mut self, m: u32) ensures final(self).spec_mode() == m { unimplemented!() }
 }
 /// st_mode -> permission bits (st_mode & 0o7777) and file type (st_mode & S_IFMT)
 pub uninterp spec fn mode_perm(m: u32) -> u32;
@@ -143,6 +147,7 @@ impl Metadata {
     #[verifier::external_body] pub fn st_size(&self) -> (r: u64) ensures r == self.spec_len() { unimplemented!() }
     #[verifier::external_body] pub fn st_blocks(&self) -> (r: u64) ensures r == self.spec_blocks() { unimplemented!() }
     #[verifier::external_body] pub fn permissions(&self) -> (r: Permissions) ensures r.spec_mode() == self.spec_mode() { unimplemented!() }
+    #[verifier::external_body] pub fn mode(&self) -> (r: u32) ensures r == self.spec_mode() { unimplemented!() }
     #[verifier::external_body] pub fn uid(&self) -> (r: u32) ensures r == self.spec_uid() { unimplemented!() }
     #[verifier::external_body] pub fn gid(&self) -> (r: u32) ensures r == self.spec_gid() { unimplemented!() }
     #[verifier::external_body] pub fn ino(&self) -> (r: u64) ensures r == self.spec_ino() { unimplemented!() }
